@@ -6,7 +6,7 @@
 From Coq Require Import ZArith QArith List Bool String.
 From Flocq Require Import Core BinarySingleNaN.
 From UomV Require Import Model.Tables Model.Conv Model.FloatM Model.FloatOps Model.Exact
-  Model.Quantity Model.Storages Model.Duration Model.Text.
+  Model.Quantity Model.Storages Model.Duration Model.Text Model.Typing.
 Import ListNotations.
 Open Scope Z_scope.
 
@@ -208,4 +208,20 @@ Definition text_run (r : treq) : list Z :=
           | None => [0]
           end
       end
+  end.
+
+(* ------------------------------------------------------------------ typing (C01, C02, C15, C17, C04) *)
+(* kinds and impl_from! pairs travel with the request (they come from the translated tables) *)
+Record tyreq := mkTyreq {
+  tr_kinds : list kind_decl; tr_from : list (string * string); tr_n : nat; tr_temp : list Z;
+  tr_cfg : cfg; tr_prog : prog }.
+
+Fixpoint kind_index (ks : list kind_decl) (k : string) (i : Z) : Z :=
+  match ks with [] => -1 | d :: r => if String.eqb (k_name d) k then i else kind_index r k (i + 1) end.
+
+(* [0] = does not compile; [1; base; kind index; exponents...] = compiles with this static type *)
+Definition typing_run (r : tyreq) : list Z :=
+  match ty (tr_kinds r) (tr_from r) (tr_n r) (tr_temp r) (tr_cfg r) (tr_prog r) with
+  | None => [0]
+  | Some t => 1 :: t_base t :: kind_index (tr_kinds r) (t_kind t) 0 :: t_dim t
   end.
